@@ -42,8 +42,8 @@ def worker_init(tier):
 
 def bounds(tier):
     if tier == 'quick':
-        return {'names': 29, 'N_default_params': 'every N in 1..128', 'N_param_grids': 'every N in 1..32', 'keywords_tried': ALL_KEYWORDS}
-    return {'names': 29, 'N_default_params': 'every N in 1..512 + %s' % LADDER, 'N_param_grids': 'every N in 1..64', 'keywords_tried': ALL_KEYWORDS}
+        return {'names': 29, 'N_default_params': 'every N in 1..128', 'N_param_grids': 'every N in 1..32', 'keywords_tried': ALL_KEYWORDS, 'N_as_numpy_integer': 'int16/int32/int64 at N in {9, 40}, int16 at 200, int32 at 1300, int64 at 2000', 'sequences': 'request, overwrite the result, request again'}
+    return {'names': 29, 'N_default_params': 'every N in 1..512 + %s' % LADDER, 'N_param_grids': 'every N in 1..64', 'keywords_tried': ALL_KEYWORDS, 'N_as_numpy_integer': 'int16/int32/int64 at N in {9, 40}, int16 at 200, int32 at 1300, int64 at 2000', 'sequences': 'request, overwrite the result, request again'}
 
 
 def expected_clauses(tier):
@@ -72,6 +72,16 @@ def run_shard(desc, R, tier):
             eval_point({'kind': 'w', 'name': name, 'N': N, 'params': {}}, R)
             if N in (1, 2, 3, 8, 9, 64) or N == hi:
                 eval_point({'kind': 'obj', 'name': name, 'N': N}, R)
+            if N in (9, 40):
+                # the caller owns the returned array: overwriting it must not change what a later request returns
+                eval_point({'kind': 'w', 'name': name, 'N': N, 'params': {}, 'clobber_first': True}, R)
+                # the length given as a numpy integer of any width
+                for ntype in ('int16', 'int32', 'int64'):
+                    eval_point({'kind': 'w', 'name': name, 'N': N, 'params': {}, 'ntype': ntype}, R)
+        for N, ntype in ((1300, 'int32'), (200, 'int16'), (2000, 'int64')):
+            if name == 'chebwin' and N > 512 and tier == 'quick':
+                continue
+            eval_point({'kind': 'w', 'name': name, 'N': N, 'params': {}, 'ntype': ntype}, R)
     elif kind == 'params':
         name = desc[1]
         hi = 32 if tier == 'quick' else 64
@@ -165,16 +175,32 @@ def eval_point(pt, R):
             R.viol('window_object', {'name': name, 'exc': type(e).__name__}, pt, repr(e), None, 'Window raised')
         return
     name, N, params = pt['name'], int(pt['N']), dict(pt['params'])
+    Narg = getattr(np, pt['ntype'])(N) if pt.get('ntype') else N
+    if pt.get('clobber_first'):
+        try:
+            w0 = spectrum.create_window(N, name, **params)
+            if isinstance(w0, np.ndarray) and w0.flags.writeable:
+                w0[:] = -7.0
+            o0 = spectrum.Window(N, name)
+            d0 = np.asarray(o0.data)
+            if d0.flags.writeable:
+                d0[:] = -7.0
+        except Exception:
+            pass
     if pt.get('after'):
         try:
             spectrum.create_window(N, name, **dict(pt['after']))
         except Exception:
             pass
     feats = {'name': name, 'N': '1' if N == 1 else ('2' if N == 2 else ('odd' if N % 2 else 'even')), 'params': 'default' if not params else 'custom'}
+    if pt.get('ntype'):
+        feats['N_type'] = 'numpy integer'
+    if pt.get('clobber_first'):
+        feats['after'] = 'caller overwrote an earlier result'
     R.point(pt)
     R.calls()
     try:
-        w = np.asarray(spectrum.create_window(N, name, **params))
+        w = np.asarray(spectrum.create_window(Narg, name, **params))
     except Exception as e:
         R.viol('samples', dict(feats, exc=type(e).__name__), pt, repr(e), None, 'create_window raised for a documented configuration')
         return
